@@ -13,18 +13,32 @@ import (
 // Script is the F-script scenario family: the real endpoint + DefaultHandler +
 // Session + memory.Storage of one role, driven step by step by a scripted peer.
 type Script struct {
-	w      *World
+	*Client
 	Role   string // "acceptor" or "initiator": the role of the library side
-	P      *Peer
 	Acc    *AccSide
 	Ini    *InitSide
 	LibEnd *Conn
 	Store  *Store
+	HB     int
+	Cfg    ScriptCfg
+}
+
+// Client is one scripted peer connection with its own identifiers and sequence numbers.
+type Client struct {
+	w      *World
+	P      *Peer
 	PeerID string // CompID the peer sends as 49
 	LibID  string // CompID the peer sends as 56
 	outSeq int    // last sequence number used by the peer
-	HB     int
-	Cfg    ScriptCfg
+	Shape  func([]byte) []seg
+}
+
+// NewClient dials the acceptor of as and returns a scripted peer on the new connection.
+func (w *World) NewClient(as *AccSide, name, peerID, libID string) *Client {
+	cli, _ := as.L.Dial(name, -1, -1)
+	c := &Client{w: w, P: NewPeer(w, cli, name), PeerID: peerID, LibID: libID}
+	w.SettleNet(cli)
+	return c
 }
 
 type ScriptCfg struct {
@@ -45,7 +59,7 @@ type ScriptCfg struct {
 }
 
 func (w *World) NewScript(cfg ScriptCfg) *Script {
-	sc := &Script{w: w, Role: cfg.Role, Cfg: cfg}
+	sc := &Script{Client: &Client{w: w, Shape: cfg.Shape}, Role: cfg.Role, Cfg: cfg}
 	if cfg.WriteTimeout == 0 {
 		cfg.WriteTimeout = time.Minute
 	}
@@ -104,26 +118,26 @@ func (sc *Script) LogoutEvents() int {
 	return sc.Ini.Logouts
 }
 
-func (sc *Script) Settle() { sc.w.SettleNet(sc.P.C) }
+func (sc *Client) Settle() { sc.w.SettleNet(sc.P.C) }
 
-func (sc *Script) NextSeq() int { sc.outSeq++; return sc.outSeq }
-func (sc *Script) SetSeq(n int) { sc.outSeq = n }
-func (sc *Script) LastSeq() int { return sc.outSeq }
+func (sc *Client) NextSeq() int { sc.outSeq++; return sc.outSeq }
+func (sc *Client) SetSeq(n int) { sc.outSeq = n }
+func (sc *Client) LastSeq() int { return sc.outSeq }
 
 // Msg builds a well-formed message from the peer with the next sequence number.
-func (sc *Script) Msg(typ string, extra ...Field) []byte {
+func (sc *Client) Msg(typ string, extra ...Field) []byte {
 	return Build(AdminMsg(typ, sc.NextSeq(), sc.PeerID, sc.LibID, extra...), WireOpts{})
 }
 
 // MsgSeq is Msg with an explicit sequence number.
-func (sc *Script) MsgSeq(typ string, seq int, extra ...Field) []byte {
+func (sc *Client) MsgSeq(typ string, seq int, extra ...Field) []byte {
 	return Build(AdminMsg(typ, seq, sc.PeerID, sc.LibID, extra...), WireOpts{})
 }
 
 // Step injects raw bytes, lets the system settle at the current instant and
 // returns what the library sent in response.
-func (sc *Script) Step(raw []byte) []RxMsg {
-	sc.P.SendShaped(raw, sc.Cfg.Shape)
+func (sc *Client) Step(raw []byte) []RxMsg {
+	sc.P.SendShaped(raw, sc.Shape)
 	sc.Settle()
 	return sc.P.Take()
 }
@@ -190,7 +204,7 @@ func dropTimer(ms []RxMsg) []RxMsg {
 
 // checkFraming flags messages whose BodyLength/CheckSum do not match their bytes.
 // That is C01's subject: here it only makes the run inconclusive.
-func (sc *Script) checkFraming(ms []RxMsg) bool {
+func (sc *Client) checkFraming(ms []RxMsg) bool {
 	for _, m := range ms {
 		l, s := FrameOK(m.Raw)
 		if !l || !s {
